@@ -387,6 +387,10 @@ func segPolicy(tier string, c *caseSpec, b *built, seqPart bool) (wsgen.SegOpt, 
 	}
 	if thorough {
 		o.StructFrames = 4
+		o.DoubleFrames = 2
+		if fullComp {
+			o.BytesMax = 140000 // byte-at-a-time also for the 64 KiB / 128 KiB messages
+		}
 	}
 	if b.nFrames > 4096 {
 		// the receiver is quadratic in the number of frames per Parse call: chunked feeds; the
